@@ -1,0 +1,14 @@
+//go:build verif
+
+package unary
+
+import "github.com/thanos-community/promql-engine/execution/model"
+
+// VerifChildren exposes the child slot of the unary operator to the
+// verification harness (build tag verif only).
+func VerifChildren(op model.VectorOperator) []*model.VectorOperator {
+	if o, ok := op.(*unaryNegation); ok {
+		return []*model.VectorOperator{&o.next}
+	}
+	return nil
+}
